@@ -136,6 +136,26 @@ CHECKS = {
               "objects, the stack held open as real suspended generators, three ways (exhaust, close, drop)."),
         technique="implementation-shaped TLA+ model of the unify generators model-checked against a reference mgu; all start states replayed on the real unify",
         ref="5/C02"),
+    "C16": dict(
+        text=("spec/Literals.tla gives executable definitions of what a literal denotes (Unquote, NumeralValue, list/list-pair folding, `_` fresh) and of to_python; TLC "
+              "evaluates them on observations of the real compiler+engine for enumerated boundary literals and thousands of seeded random ones (all Unicode planes, quotes, "
+              "newlines, nested compounds, lists, list pairs, 40-digit integers) in fact, rule-head and body position: the term obtained, to_python of it, unification with "
+              "the same term built through atom/functor/listpair/makelist in the same and in a second engine, atom identity per engine. Evaluator use of TLC."),
+        technique="executable TLA+ definitions of literal denotation and to_python evaluated by TLC on recorded observations",
+        ref="5/C16"),
+    "C18": dict(
+        text=("spec/Determinism.tla defines the configuration space (program x string-hash seed incl. random x compilations before it in the same process: fresh, forward, "
+              "reverse, repeat) and the property; TLC enumerates the configurations, the real compiler runs in subprocesses under each, TLC decides Deterministic and Covered "
+              "on the recorded output hashes. Programs: hand-made ones with many first-occurrence variables / anonymous variables / several if-then-else, and random programs."),
+        technique="TLC-enumerated configuration space; outputs of the real compiler under each configuration compared by TLC",
+        ref="5/C18"),
+    "C19": dict(
+        text=("spec/Cli.tla models the command line as a writer process and is model-checked for all 16 flag sets x 8 source lists (CliEqualsLibrary, OnlyCommentsAdded, "
+              "NonZeroOnError; the variant without per-line prefixing of debug messages fails, which is how the pinned defect shows in the model); the real `python -m "
+              "yldprolog.compiler` and `yldpc` are run for every configuration TLC prints x stdout/-o x file/stdin with concrete programs (plain, embedded newline, embedded "
+              "carriage return, non-ASCII, two kinds of syntax error, non-callable goal) and TLC decides the same predicates on the recorded runs."),
+        technique="TLA+ model of the CLI writer process model-checked; recorded runs of the real CLI validated by TLC",
+        ref="5/C19"),
 }
 
 PENDING = {}
